@@ -203,7 +203,7 @@ def display_animated_unit(graphics):
             if not s.ghost["made_iterator"]:
                 eng.oblige("rejected-arguments:nothing-written,nothing-changed", s, And(kind == "raise", s.ghost["writes_n"] == 0, Eq(s.H(self_)["_seek_position"], seek0)), kind="raise")
                 continue
-            eng.oblige(f"C11:current-frame-restored@{kind}", s, Eq(s.H(self_)["_seek_position"], seek0), prop="C11", kind="exit")
+            eng.oblige(f"C11:current-frame-restored@{kind}", s, Eq(s.H(self_)["_seek_position"], seek0), prop="C11", kind="exit", replay="C11.animated_draw_frame")
             eng.oblige(f"C07:current-frame-restored@{kind}", s, Eq(s.H(self_)["_seek_position"], seek0), prop="C07", kind="exit")
             eng.oblige(f"C11:iterator-closed,image-handed-in-closed-exactly-once@{kind}", s,
                        And(s.H(imgit)["closed"], len(s.ghost["close_image"]) == 1 and s.ghost["close_image"][0] is img), prop="C11", kind="exit")
